@@ -979,6 +979,15 @@ fn run_inner(sc: &J) -> Result<Option<String>, String> {
                 let mut w = apache_avro::Writer::builder().schema(&schema).writer(&mut header).codec(codec).marker([9u8; 16]).build().map_err(|e| e.to_string())?;
                 w.flush().map_err(|e| e.to_string())?;
             }
+            // the magic: "Obj" followed by the version byte 1 — any other value of any of the four bytes is not a container file
+            if sc["codec"].as_str().unwrap_or("null") == "null" {
+                let mut valid = header.clone();
+                valid.extend_from_slice(&[2, 2, 2, 4]); valid.extend_from_slice(&[9u8; 16]);
+                for pos in 0..4 { for v in 0..=255u8 { if v == valid[pos] { continue; }
+                    let mut f = valid.clone(); f[pos] = v;
+                    if apache_avro::Reader::new(&f[..]).is_ok() { return Ok(Some(format!("a file whose magic byte {pos} is {v:#04x} instead of {:#04x} is opened as a container file", valid[pos]))); }
+                } }
+            }
             let blocks: Vec<Vec<i32>> = vec![vec![1, 2], vec![3], vec![4, 5, 6], vec![700, -70000]];
             let enc_int = |v: i32| -> Vec<u8> { apache_avro::to_avro_datum(&schema, Value::Int(v)).unwrap() };
             let varint = |n: i64| -> Vec<u8> { apache_avro::to_avro_datum(&Schema::Long, Value::Long(n)).unwrap() };
